@@ -19,7 +19,8 @@ pub use zerocopy::{FromBytes, FromZeros, Immutable, IntoBytes};
 
 // ------------------------------------------------------------------------------------------------
 // Share ledger
-pub const MAXSH: usize = 16;
+pub const MAXSH: usize = 40;
+pub const MAXSTEP: usize = 16; // ledger entries the queue step harnesses iterate over
 pub const MAXPRE: usize = 8; // ledger entries a havocked pre-state may hold
 pub const D2D: u8 = 0; // driver -> device (device-readable)
 pub const D2H: u8 = 1; // device -> driver (device-writable)
@@ -1288,3 +1289,40 @@ pub fn q_num_used<H: Hal, const N: usize>(q: &VirtQueue<H, N>) -> u16 { q.num_us
 pub fn q_last_used<H: Hal, const N: usize>(q: &VirtQueue<H, N>) -> u16 { q.last_used_idx }
 pub fn q_avail_idx<H: Hal, const N: usize>(q: &VirtQueue<H, N>) -> u16 { q.avail_idx }
 pub fn q_index<H: Hal, const N: usize>(q: &VirtQueue<H, N>) -> u16 { q.queue_idx }
+
+/// shift the free-running ring indices of a queue whose chains are all still outstanding and unconsumed
+/// (driver-private copies, published index and the device's used index move together)
+pub fn q_shift_indices<H: Hal, const N: usize>(q: &mut VirtQueue<H, N>, base: u16) {
+    let outstanding = q.avail_idx.wrapping_sub(q.last_used_idx);
+    // SAFETY: harness-owned typed ring memory
+    unsafe {
+        let av = &mut *q.avail.as_ptr();
+        let us = &mut *q.used.as_ptr();
+        // rotate the ring contents so that slot (base + i) holds what slot (old + i) held
+        let old = q.last_used_idx;
+        let mut tmp = [0u16; N];
+        let mut i = 0;
+        while i < N {
+            tmp[i] = av.ring[(old.wrapping_add(i as u16) as usize) & (N - 1)];
+            i += 1;
+        }
+        i = 0;
+        while i < N {
+            av.ring[(base.wrapping_add(i as u16) as usize) & (N - 1)] = tmp[i];
+            i += 1;
+        }
+        q.last_used_idx = base;
+        q.avail_idx = base.wrapping_add(outstanding);
+        av.idx.store(q.avail_idx, Ordering::Relaxed);
+        us.idx.store(base, Ordering::Relaxed);
+    }
+}
+
+/// hostile device: arbitrary used element at `pos` and arbitrary used index
+pub fn dev_hostile_used<const N: usize>(q: usize, pos: u16, id: u32, len: u32, used_idx: u16) {
+    unsafe {
+        let m = &mut *(QS[q].d2h as *mut D2HMem<N>);
+        m.used.ring[(pos as usize) & (N - 1)] = UsedElem { id, len };
+        m.used.idx.store(used_idx, Ordering::Relaxed);
+    }
+}
